@@ -175,9 +175,12 @@ def _r2(chk, repo, ci):
     k1, r1 = walk(v, val(True), pn)
     if k1 != "raise":
         problems.append("burn-in >= number of samples is not refused")
-    k2, r2 = walk(v, val(False), pn)
-    rec = k2 == "return"
-    if rec:
+    # every path on which the burn-in is accepted (tests the valuation does not decide - a "nothing to remove" shortcut - are followed both ways)
+    from ..pathtable import walk_paths
+    outs = walk_paths(v, val(False), pn)
+    rec = bool(outs) and all(k_ in ("return", "raise") for k_, _ in outs) and any(k_ == "return" for k_, _ in outs)
+    k2, r2 = next(((k_, r_) for k_, r_ in outs if k_ not in ("return", "raise")), outs[0] if outs else ("unknown", None))
+    for k2, r2 in [o for o in outs if o[0] == "return"] if rec else []:
         raw = getattr(r2, "_raw", None)
         env = getattr(r2, "_env", {})
         sl = _ct(f"self.samples[...,{nb}::{nt}]")
